@@ -10,6 +10,9 @@ VERSION_PATTERNS = [
     ("vYYYY.0M.0D", []), ("MAJOR.MINOR[.PATCH]", ["--patch"]), ("YYYY.MM.INC0", []), ("vYY.0W.PATCH", ["--patch"]),
     ("MAJOR.MINOR.PATCH[PYTAGNUM]", ["--major"]), ("YYYY.0M.BLD", []), ("vGGGG.0V.BUILD", []), ("v0Y.00J.INC1[-TAG]", []),
 ]
+# every version pattern is exercised at least once per run with {version} and {pep440_version} occurrences (week, day-of-year, ISO and two-digit parts included)
+CORPUS_PATTERNS = VERSION_PATTERNS + [("YYYY.0W.PATCH", ["--patch"]), ("YYYY.0U.PATCH", ["--patch"]), ("YYYY.WW.BUILD", []), ("YYYY.0M.0D.BUILD", []),
+                                      ("YYYY.00J.BUILD", []), ("YYYY.JJJ.BLD", []), ("GGGG.VV.PATCH", ["--patch"]), ("YYYY.Q.BUILD[-TAG]", [])]
 V1_PATTERNS = [("{pycalver}", []), ("{semver}", ["--patch"]), ("v{year}{month}{build}{release}", []), ("{year}.{build_no}", [])]
 
 FILLER = ["", "some text", "# comment line", "x = 1", "naïve café — ünïcödé", "tab\tseparated", "  indented  ", "regex .*+?()[]{}|^$\\ chars",
@@ -72,9 +75,9 @@ CFG_PREFIXES = ["", "", "", "[bumpversion]\ncurrent_version = {q}none{q}\n\n", "
                 "[bumpver_old]\ncurrent_version = {q}n/a{q}\nversion_pattern = {q}MAJOR.MINOR.PATCH{q}\n\n", "[metadata]\nversion = {q}1.0{q}\n\n"]
 
 
-def gen_project(r, impl, legacy=False, max_files=5, allow_mixed=True, n_files=None, allow_dup=False):
+def gen_project(r, impl, legacy=False, max_files=5, allow_mixed=True, n_files=None, allow_dup=False, force=None):
     """Returns dict(vp, flags, old, files=[FileSpec], date).  The config file itself is bumpver.toml."""
-    vp, flags = r.choice(V1_PATTERNS if legacy else VERSION_PATTERNS)
+    vp, flags = force if force else r.choice(V1_PATTERNS if legacy else VERSION_PATTERNS)
     d = dt.date(2001, 1, 1) + dt.timedelta(days=r.randrange(0, 30000))
     if legacy:
         v1 = impl.v1version
@@ -97,6 +100,10 @@ def gen_project(r, impl, legacy=False, max_files=5, allow_mixed=True, n_files=No
     for i in range(nfiles):
         path = r.choice(["a%d.txt", "src/pkg%d/__init__.py", "docs/readme%d.md", "setup%d.py"]) % i
         pats, k = file_patterns_for(r, vp, k, legacy)
+        if force and i == 0:
+            # corpus projects always carry a {version} and a {pep440_version} occurrence
+            k += 2
+            pats = ['ver%d = "{version}"' % (k - 1), "pep%d: {pep440_version};" % k] + pats[:1]
         fs = FileSpec(path, pats)
         regime = r.choice(["\n", "\n", "\r\n", "\r", "mixed"] if allow_mixed else ["\n", "\n", "\r\n", "\r"])
         terms = ["\n", "\r\n", "\r"] if regime == "mixed" else [regime]
